@@ -169,6 +169,8 @@ func c12Check(c *oracleCtx, text, kind string, line, col int) {
 				cls = clsUnterminated
 			} else if why := treeStaticOveraccept(prog); why != "" {
 				cls, what = clsOveraccept, what+" ("+why+")"
+			} else if srcAsiBeforeBacktick(text) {
+				cls, what = clsAsiBacktick, what+" (a line starts with a backtick literal after a complete expression: ECMAScript continues the expression)"
 			} else if treePostfixCallee(prog) {
 				cls, what = clsPostfixCallee, what+" (call or member access on an unparenthesised postfix expression)"
 			}
